@@ -377,6 +377,25 @@ macro_rules! with_stack {
                 };
                 (rec.log, r)
             }
+            "replace_twice" => {
+                // one long-lived Replace adapter fed the same diff twice: after finish it must be as good as new
+                let mut rec = Rec::<true>::new($fail);
+                let r = {
+                    let mut h = Replace::new(&mut rec);
+                    let r1 = {
+                        let $d = &mut h;
+                        $body
+                    };
+                    match r1 {
+                        Ok(_) => {
+                            let $d = &mut h;
+                            $body
+                        }
+                        e => e,
+                    }
+                };
+                (rec.log, r)
+            }
             "replace_compact" => {
                 let mut rec = Rec::<true>::new($fail);
                 let r = {
